@@ -741,6 +741,14 @@ func runC20(c *Cfg) {
 			}
 		}
 	}
+	// waits far beyond an hour (just above 2^32 and 2^33 microseconds, and a week): still waits, still interruptible
+	for _, kind := range []string{"struct", "func", "batch"} {
+		for _, wms := range []int64{4294970, 8589940, 7 * 24 * 3600 * 1000} {
+			for _, in := range []bool{false, true} {
+				cases = append(cases, &WaitCase{Family: "interrupt-very-long-wait", Kind: kind, WaitNs: wms * int64(time.Millisecond), N: 3, K: 4, Cancel: 1, InCB: in, C: 2, Items: 2})
+			}
+		}
+	}
 	// a deadline that leaves room for the next wait but not for all of them: the waits that do happen are full waits
 	for _, kind := range []string{"struct", "func", "batch"} {
 		for _, wd := range [][2]int{{100, 250}, {40, 100}, {60, 200}} {
